@@ -54,7 +54,7 @@ def unit(model, sizes):
     od = W.run("predict_draw") if n >= 3 else None
     sr = W.spec("rank")
     P = W.prover()
-    mono = W.phi_monotone() if n >= 3 else []
+    mono = W.phi_monotone(P) if n >= 3 else []
     ranks = [term(r) for (r, _p) in out[1]]
     probs = [term(p) for (_r, p) in out[1]]
     zero, one = z3.RealVal(0), z3.RealVal(1)
